@@ -1,6 +1,7 @@
 /* Executor for CcDisplay behaviours (C08): feeds caption byte pairs through vbi_decode() (line 21 =
- * field 1, line 284 = field 2) and prints, after every pair, the caption events and the glyph
- * cells of the pages of CC1..CC4 as vbi_fetch_cc_page() returns them.  No expectation here.
+ * field 1, line 284 = field 2) and prints, after every pair, the caption events and every cell of
+ * the pages of CC1..CC4 (all 34 columns: column 0 and 33 are the margins) that is not a transparent
+ * space, as vbi_fetch_cc_page() returns them.  No expectation here.
  * stdin: R | P <field 1|2> <b1 hex> <b2 hex>
  * stdout per P: {"ev":[pgno...],"pg":[[ [row,col,unicode,fg,ul,it,fl,opacity,bg],... ] x4]}
  */
@@ -54,7 +55,7 @@ int main(void)
 					for (r = 0; r < pg.rows; r++)
 						for (c = 0; c < pg.columns; c++) {
 							vbi_char *x = &pg.text[r * pg.columns + c];
-							if (x->unicode == 0x20) continue;
+							if (x->unicode == 0x20 && x->opacity == VBI_TRANSPARENT_SPACE) continue;
 							printf("%s[%d,%d,%u,%u,%u,%u,%u,%u,%u]", first ? "" : ",", r, c, x->unicode,
 							       x->foreground, x->underline, x->italic, x->flash, x->opacity, x->background);
 							first = 0;
